@@ -28,6 +28,10 @@ type ColDef struct {
 type TableDef struct {
 	Name string
 	Cols []ColDef
+	// Idx, if set, gives the index kind per column ("skip", "uniq", "btree", "hash", "" = none); the
+	// table is then created through catalog.CreateTable instead of SQL DDL (which always gives every
+	// column a skip-list index).
+	Idx []string
 }
 
 func (td *TableDef) ColIdx(name string) int {
